@@ -527,4 +527,55 @@ theorem addPost_ok (allow : Bool) : ∀ (post : List (Kind × Name × Owner)) (e
         · simpa [postOf] using h2
         · simpa [postOf, addAll, h1] using h3
 
+theorem lastOf_map_reserved (ns : List Name) (k : Name) :
+    lastOf (ns.map fun n => (n, Owner.reserved)) k = if k ∈ ns then some Owner.reserved else none := by
+  induction ns with
+  | nil => simp [lastOf]
+  | cons a ns ih =>
+    simp only [List.map_cons, lastOf, ih, List.mem_cons]
+    by_cases h1 : k ∈ ns
+    · simp [h1]
+    · by_cases h2 : a = k
+      · subst h2; simp [h1]
+      · have : ¬ k = a := fun e => h2 e.symm
+        simp [h1, h2, this]
+
+/-- What `builtinGlobals` leaves at a name: the language global if there is one, else the reserved object for
+`now_utc` and the reserved namespaces, else whatever was there. -/
+theorem cget_builtinGlobals (cfg : EnvCfg) (g : Coll) (k : Name) :
+    cget (builtinGlobals cfg g) k =
+      match lastOf cfg.langGlobals k with
+      | some v => some v
+      | none => if nowUtc = k then some Owner.reserved
+                else if k ∈ cfg.reservedNs then some Owner.reserved else cget g k := by
+  unfold builtinGlobals
+  rw [cget_setAll, cget_cset, cget_setAll, lastOf_map_reserved]
+  cases lastOf cfg.langGlobals k with
+  | some v => rfl
+  | none =>
+    by_cases h1 : nowUtc = k
+    · simp [h1]
+    · by_cases h2 : k ∈ cfg.reservedNs <;> simp [h1, h2]
+
+/-- The globals of a successfully constructed environment are `builtinGlobals` over what the user's loop left
+(any allow flag, repaired or unrepaired loop: both continue with `constructRest`). -/
+theorem constructRest_globals (cfg : EnvCfg) (allow : Bool) (g : Coll) (uf ut : List (Name × Owner)) (env : Env)
+    (h : constructRest cfg allow g uf ut = .ok env) : env.globals = builtinGlobals cfg g := by
+  unfold constructRest at h
+  cases hf1 : addAll allow cfg.jinjaFilters cfg.preFilters with
+  | error x => simp [hf1] at h
+  | ok f1 =>
+    cases ht1 : addAll allow cfg.jinjaTests cfg.preTests with
+    | error x => simp [hf1, ht1] at h
+    | ok t1 =>
+      simp only [hf1, ht1] at h
+      cases hf2 : addAll allow f1 (conv uf) with
+      | error x => simp [hf2] at h
+      | ok f2 =>
+        cases ht2 : addAll allow t1 (conv ut) with
+        | error x => simp [hf2, ht2] at h
+        | ok t2 =>
+          simp only [hf2, ht2] at h
+          exact (addPost_ok allow cfg.post _ _ h).2.2
+
 end NunavutVerif.Resolve
